@@ -66,6 +66,7 @@ package date
 //@   loop 2 decreases j - i + 1
 //
 //@ func (Partition).Size
+//@   inline
 //@   ensures result == len(part.periods)
 //
 //@ func (Partition).Contains
